@@ -98,6 +98,8 @@ def _first_byte_nonzero(a):
 
 
 def check(ctx, rep):
+    from . import c15 as _c15, _share as _sh
+    _sh.share(ctx, rep, _c15, ('saveload.announced',), 'the length written into the tape header is the number of bytes SAVE writes')
     ow = ctx.fn(CAS + ':CassetteStream.open_write')
     orr = ctx.fn(CAS + ':CassetteStream.open_read')
     pk = [c for c in own_nodes(ow) if isinstance(c, ast.Call) and norm(c.func) == 'struct.pack']
@@ -236,6 +238,13 @@ def check(ctx, rep):
            okm, detail, ctx.where(se))
     hs = [h for n in own_nodes(se) if isinstance(n, ast.Try) for h in n.handlers]
     codes = [ctx.basic_error_code(r) for h in hs for r in own_nodes(h) if isinstance(r, ast.Raise)]
+    hb = [norm(x) for h in hs for x in h.body]
+    rep.ob('search.timeout-leaves-tape-closed', 'at the end of the tape the file last skipped over is closed before Device timeout is raised (open_read marks the stream open)',
+           len(hs) == 1 and 'self.tapestream.close()' in hb and hb.index('self.tapestream.close()') < max(i for i, x in enumerate(hb) if x.startswith('raise ')),
+           'the stream stays open: every later OPEN / LOAD on the device fails with File already open', ctx.where(se))
+    orr = ctx.fn(CAS + ':CassetteStream.open_read')
+    rep.ob('search.open-read-marks-open', 'open_read marks the stream open (the reason a failed search must close it)',
+           any(norm(x) == 'self.is_open = True' for x in own_nodes(orr) if isinstance(x, ast.Assign)), '', ctx.where(orr))
     rep.ob('search.end-of-tape', 'end of tape rewinds and raises Device timeout', len(hs) == 1 and norm(hs[0].type) == 'EndOfTape' and codes == ['DEVICE_TIMEOUT']
            and 'self.tapestream.wind(0)' in norm(hs[0]), repr(codes), ctx.where(se))
     op = ctx.fn(CAS + ':CASDevice.open')
@@ -272,6 +281,8 @@ def variants(ctx):
            in_fn('CassetteStream._fill_record_buffer', lambda fn: mu.replace_expr(fn, mu.text_is('self._read_record(self.length)'), 'self._read_record(256)')), expect='binary'),
         Va('flush-forgets-protected-type', 'break', CAS,
            in_fn('CassetteStream._flush_record_buffer', lambda fn: mu.replace_expr(fn, mu.text_is("(b'M', b'B', b'P')"), "(b'M', b'B')")), expect='binary.type-set'),
+        Va('timeout-leaves-file-open', 'break', CAS,
+           in_fn('CASDevice._search', lambda fn: mu.remove_stmt(fn, mu.text_is('self.tapestream.close()'))), expect='search.timeout'),
         Va('search-compares-uncut-name', 'break', CAS,
            in_fn('CASDevice._search', lambda fn: mu.replace_expr(fn, mu.text_is('trunk_req[:8].rstrip()'), 'trunk_req.rstrip()')), expect='search.match'),
         Va('search-ignores-type', 'break', CAS,
